@@ -25,6 +25,11 @@ class Analysis:
     def raises(self) -> RaiseSummary:
         return RaiseSummary(self.p, self.ct, self.resolver)
 
+    @cached_property
+    def callgraph(self):
+        from .callgraph import CallGraph
+        return CallGraph(self)
+
     def stats(self) -> dict:
         return {
             'modules': len(self.p.modules),
